@@ -11,7 +11,7 @@ from glue.core.state_objects import StateAttributeLimitsHelper
 from glue.utils import defer_draw, view_shape
 from echo import delay_callback
 from glue.core.data_combo_helper import ManualDataComboHelper, ComponentIDComboHelper
-from glue.core.exceptions import IncompatibleDataException
+from glue.core.exceptions import IncompatibleAttribute, IncompatibleDataException
 from glue.viewers.common.stretch_state_mixin import StretchStateMixin
 from glue.core.units import find_unit_choices
 
@@ -631,7 +631,14 @@ class ImageLayerState(BaseImageLayerState, StretchStateMixin):
             ImageLayerState.attribute_display_unit.set_choices(self, [])
             return
 
-        component = self.layer.get_component(self.attribute)
+        try:
+            component = self.layer.get_component(self.attribute)
+        except IncompatibleAttribute:
+            # The attribute has just been removed from the dataset and the
+            # attribute choices have not been updated yet (e.g. a rename and
+            # the removal were announced in the same delayed batch)
+            ImageLayerState.attribute_display_unit.set_choices(self, [''])
+            return
         if component.units:
             c_choices = find_unit_choices([(self.layer, self.attribute, component.units)])
         else:
